@@ -218,7 +218,7 @@ def check_compositions(h: Harness):
     for step, n in CORPUS_STEPS:
         for form in FORMS:
             cases.append((step, n, n, form, [False, True]))
-    for _ in range(h.n(1200, 15000)):
+    for _ in range(h.n(1200, 60000)):
         mins = [rng.random() < 0.5 for _ in range(rng.choice([1, 2, 3]))]
         step = sc.gen_step(rng, rng.choice([1, 2, 2, 3, 3]), mins)
         n = rng.randint(2, 9)
@@ -362,7 +362,7 @@ def check_gp_stub(h: Harness):
     reproduces every generation."""
     rng = h.rng
     runs = [(sc.default_step_tree(), n) for n in (2, 3, 7, 10, 13, 20)]
-    for _ in range(h.n(120, 1500)):
+    for _ in range(h.n(120, 5000)):
         mins = [False, True]
         step = sc.gen_step(rng, rng.choice([1, 2, 3]), mins)
         runs.append((step, rng.randint(2, 11)))
@@ -409,7 +409,7 @@ def check_gp_tree(h: Harness):
     configs = []
     for n in sizes:
         configs.append((None, n, "standard"))
-    for _ in range(h.n(8, 80)):
+    for _ in range(h.n(8, 300)):
         step = sc.gen_step(rng, rng.choice([1, 2, 3]), None)
         if "lexicase" in sc.kinds(step):
             continue
